@@ -22,6 +22,7 @@ type profile struct {
 	mppProb  int // percent of histories with MPP enabled
 	proj     int64
 	rule     string
+	pre      []func(h *Hist) // scripted preludes: the i-th one opens the i-th history of the stream (no limits configured there)
 }
 
 var baseWeights = map[string]int{
@@ -213,7 +214,7 @@ func (h *Hist) actSwapForged() {
 	case 3:
 		i.amount = []uint64{3, 5, 7, 0, 1 << 60, 1<<63 + 1}[h.rng.Intn(6)]
 	case 4:
-		i.ks = -int64(1 + h.rng.Intn(3))
+		i.ks = -int64(1 + h.rng.Intn(6))
 	case 5:
 		if len(h.tm.Order) > 1 {
 			i.ks = (i.ks + 1) % int64(len(h.tm.Order))
@@ -273,7 +274,7 @@ func (h *Hist) actSwapBadOut() {
 			if len(h.tm.Order) > 1 && h.rng.Intn(3) != 0 {
 				outs[k].ks = (h.activeHandle() + 1 + int64(h.rng.Intn(len(h.tm.Order)-1))) % int64(len(h.tm.Order))
 			} else {
-				outs[k].ks = -2
+				outs[k].ks = []int64{-2, -4, -5, -6}[h.rng.Intn(4)]
 			}
 		}
 	case 5: // amount that is not a key
@@ -642,7 +643,7 @@ func (h *Hist) actMintBad() {
 			if len(h.tm.Order) > 1 && h.rng.Intn(2) == 0 {
 				outs[k].ks = (h.activeHandle() + 1 + int64(h.rng.Intn(len(h.tm.Order)-1))) % int64(len(h.tm.Order))
 			} else {
-				outs[k].ks = -1
+				outs[k].ks = []int64{-1, -4, -5}[h.rng.Intn(3)]
 			}
 		}
 	case 4:
@@ -922,8 +923,14 @@ func histStream(p profile) streamFn {
 					cfg.maxBalance, cfg.maxMint, cfg.maxMelt = 127, 64, 16
 				}
 			}
+			if i < len(p.pre) {
+				cfg.maxBalance, cfg.maxMint, cfg.maxMelt = 0, 0, 0
+			}
 			h := NewHist(sink, rng, scratch, cfg, p.proj, p.prop)
 			h.actFund(false, false)
+			if i < len(p.pre) {
+				p.pre[i](h)
+			}
 			ops := p.minOps + rng.Intn(p.maxOps-p.minOps+1)
 			for j := 0; j < ops; j++ {
 				h.act(pickWeighted(rng, p.w), p.fees)
@@ -932,6 +939,76 @@ func histStream(p profile) streamFn {
 		}
 		sink.Close(p.rule, false, start)
 	}
+}
+
+// a melt that stays pending and is settled later by a poll; then the per-keyset views and the balance (C16, C05)
+func preLateSettle(h *Hist) {
+	h.fundAmount(64)
+	q := h.OpMeltQuote(mode{}, 16000, nil, 0, true, true, nil)
+	if q == nil {
+		return
+	}
+	h.ScriptPay(q, 2, 0)
+	var ins []inSpec
+	for _, s := range h.spendable() {
+		if s.amount >= 32 && len(ins) == 0 {
+			ins = append(ins, h.honest(s))
+		}
+	}
+	if len(ins) == 0 {
+		return
+	}
+	h.OpMelt(mode{}, q, ins, false)
+	h.ScriptLook(q, 0, 9)
+	h.OpMeltState(mode{}, q, false)
+	h.OpAdmin(adminReq{method: "redeemed_ecash"})
+	for k := range h.tm.Order {
+		v := int64(k)
+		h.OpAdmin(adminReq{method: "redeemed_ecash", ks: &v})
+	}
+	h.OpAdmin(adminReq{method: "issued_ecash"})
+	h.OpAdmin(adminReq{method: "total_balance"})
+	h.OpBalance(mode{})
+	h.nontrivial = true
+}
+
+// after a rotation: outputs that mix keysets (first on the active one, the rest on the old one) in a mint and in a swap (C09)
+func preMixedKeysetOutputs(h *Hist) {
+	h.fundAmount(31)
+	old := h.activeHandle()
+	h.OpRotate(mode{}, 100)
+	act := h.activeHandle()
+	if act == old {
+		return
+	}
+	if q := h.OpMintQuote(mode{}, 7, false, false, true); q != nil {
+		h.EnvSettle(q)
+		outs := []outSpec{{b: h.newB(h.newSecret(), 1, act), amount: 1, ks: act, point: true},
+			{b: h.newB(h.newSecret(), 2, old), amount: 2, ks: old, point: true}, {b: h.newB(h.newSecret(), 4, old), amount: 4, ks: old, point: true}}
+		h.OpMint(mode{}, q, outs, 0, false)
+		h.OpMint(mode{}, q, h.freshOutputs(cashu.AmountSplit(7)), 0, false)
+	}
+	var ins []inSpec
+	var sum uint64
+	for _, s := range h.spendable() {
+		if s.ks == old && len(ins) < 2 {
+			ins = append(ins, h.honest(s))
+			sum += s.amount
+		}
+	}
+	if due := h.feesFor(ins); len(ins) > 0 && sum > due+1 {
+		var outs []outSpec
+		for k, a := range cashu.AmountSplit(sum - due) {
+			ks := old
+			if k == 0 {
+				ks = act
+			}
+			outs = append(outs, outSpec{b: h.newB(h.newSecret(), a, ks), amount: a, ks: ks, point: true})
+		}
+		h.OpSwap(mode{}, ins, outs)
+		h.OpSwap(mode{}, ins, h.honestSwapOutputs(ins))
+	}
+	h.nontrivial = true
 }
 
 func init() {
@@ -950,6 +1027,7 @@ func init() {
 	register("c05-hist", "C05", histStream(profile{prop: "C05", histQ: 150, histT: 2500, minOps: 8, maxOps: 26, proj: 1,
 		fees: []uint{0, 100}, mppProb: 30,
 		w: weightsWith(map[string]int{"melt": 30, "poll": 22, "check": 14, "melt-replay": 8, "swap-replay": 8, "restart": 3, "swap": 8}),
+		pre: []func(*Hist){preLateSettle},
 		rule: "random histories in which melts meet scripted backend answers (pay: success/pending/failed/error; lookups: success/failed/pending/error/not-found) resolved through melt, quote polls and state checks; non-trivial = at least one scripted non-success answer"}))
 	register("c06-hist", "C06", histStream(profile{prop: "C06", histQ: 150, histT: 2500, minOps: 8, maxOps: 30, proj: 0,
 		fees: []uint{0, 100, 1000}, mppProb: 30, limits: true,
@@ -958,6 +1036,7 @@ func init() {
 	register("c09-hist", "C09", histStream(profile{prop: "C09", histQ: 100, histT: 1500, minOps: 8, maxOps: 26, proj: 1,
 		fees: []uint{0, 100, 250, 1000, 2500}, mppProb: 0,
 		w: weightsWith(map[string]int{"restart": 14, "rotate": 12, "admin": 10, "swap": 16, "fund": 14, "melt": 8, "swap-forged": 6, "swap-badout": 6}),
+		pre: []func(*Hist){preMixedKeysetOutputs},
 		rule: "histories of restarts with and without rotation and runtime rotations with varying input_fee_ppk, interleaved with mint/swap/melt traffic on old and new keysets; non-trivial = at least one rotation"}))
 	register("c15-hist", "C15", histStream(profile{prop: "C15", histQ: 150, histT: 2500, minOps: 8, maxOps: 30, proj: 1,
 		fees: []uint{0, 100}, mppProb: 10,
@@ -966,5 +1045,6 @@ func init() {
 	register("c16-hist", "C16", histStream(profile{prop: "C16", histQ: 150, histT: 2500, minOps: 8, maxOps: 30, proj: 1,
 		fees: []uint{0, 100}, mppProb: 10, limits: true,
 		w: weightsWith(map[string]int{"balance": 16, "info": 12, "quote-bad": 10, "fund": 20, "melt": 10, "swap": 10, "overshoot": 8, "info-cycle": 10, "reconfigure": 6, "admin": 14}),
+		pre: []func(*Hist){preLateSettle},
 		rule: "histories under limit configurations (unset / small / at the boundary) with balance and info queries and quote requests near 2^63 and 2^64; non-trivial = a limit was configured"}))
 }
